@@ -116,6 +116,7 @@ def gen_cfg_text(o):
     return """CONSTANTS
   Comp = %(Comp)s
   MaxDepth = %(MaxDepth)s
+  BatchMembers <- MCBatch
   MaxTape = 400
   Chunks = %(Chunks)s
   AttrVals = %(AttrVals)s
@@ -488,7 +489,7 @@ def run_c14(tier, seed, t0, replay_item=None):
         n = 260 if tier == "quick" else 6000
         cfgtxt = open(os.path.join(core.SPEC, "Gen_File.cfg")).read()
         behs = []
-        for depth, share in ((14, 0.7), (30, 0.3)):
+        for depth, share in ((3, 0.25), (14, 0.5), (30, 0.25)):
             name = "Gen_File_%d.cfg" % depth
             bs, st = core.simulate("Gen_File.tla", name, int(n * share), depth + 4, seed * 13 + depth, workers=8, timeout=1500,
                                    files={name: cfgtxt.replace("GDepth = 14", "GDepth = %d" % depth)})
@@ -645,6 +646,9 @@ def run_c10(tier, seed, t0, replay_item=None):
                           "call": steps[j]["call"], "allk": tier == "thorough"})
         items.append({"id": "C10-witness-K03", "cfg": {"rs": 20}, "conc": {}, "history": [], "call": {"op": "Mkdir", "p": ["x"], "q": [], "c": "", "k": 0},
                       "witness": "partialread"})
+        for j, wc in enumerate(["memory", "file"]):
+            items.append({"id": "C10-partialread-close-%d" % j, "cfg": {"rs": rng.choice([3, 20]), "cache": wc}, "conc": {}, "history": [],
+                          "call": {"op": "Mkdir", "p": ["x"], "q": [], "c": "", "k": 0}, "witness": "partialread-close"})
     res, crashed = core.run_batches(runner, "fault", items, per_batch=2, timeout=3000)
     by_id = {it["id"]: it for it in items}
     inj, fired, infra, samples = 0, {}, [], []
@@ -724,6 +728,25 @@ def conc_programs(rng, nclients, ncalls):
     return setup, clients
 
 
+def conc_hot_programs(rng, kind):
+    """Programs aimed at one contended path: (a) rename onto an existing target vs Stat of that target,
+    (b) concurrent attribute changes of one entry."""
+    setup = [{"op": "Mkdir", "p": ["s"], "q": [], "c": "", "k": 0},
+             {"op": "WriteFile", "p": ["s", "fix"], "q": [], "c": "c1", "k": 0}]
+    if kind == "rename-vs-stat":
+        setup += [{"op": "Mkdir", "p": ["s", "x"], "q": [], "c": "", "k": 0}, {"op": "Mkdir", "p": ["s", "y"], "q": [], "c": "", "k": 0}]
+        a = []
+        for _ in range(3):
+            a += [{"op": "Rename", "p": ["s", "x"], "q": ["s", "y"], "c": "", "k": 0}, {"op": "Mkdir", "p": ["s", "x"], "q": [], "c": "", "k": 0}]
+        b = [{"op": "Stat", "p": ["s", "y"], "q": [], "c": "", "k": 0} for _ in range(8)]
+        c = [{"op": "Stat", "p": ["s", "y"], "q": [], "c": "", "k": 0} for _ in range(8)]
+        return setup, [a, b, c]
+    a = [{"op": "Chmod", "p": ["s", "fix"], "q": [], "c": "", "k": k} for k in (1, 2, 3)]
+    b = [{"op": "Chown", "p": ["s", "fix"], "q": [], "c": "", "k": k} for k in (1, 2, 3)]
+    c = [{"op": "Chtimes", "p": ["s", "fix"], "q": [], "c": "", "k": k} for k in (1, 2, 3)]
+    return setup, [a, b, c]
+
+
 def lin_check(it, r):
     """Runs TLC on spec/Lin.tla for one recorded history. Returns (linearizable, stats)."""
     hist = {"setup": [{"op": c["op"], "p": c.get("p") or [], "q": c.get("q") or [], "c": c.get("c") or "", "k": c.get("k") or 0} for c in it["setup"]],
@@ -756,7 +779,14 @@ def run_c11(tier, seed, t0, replay_item=None):
         for i in range(n):
             ncl = rng.choice([2, 2, 3, 4] if tier == "quick" else [2, 3, 4, 6, 8])
             ncalls = rng.choice([3, 4, 5]) if ncl <= 4 else 3
-            setup, clients = conc_programs(rng, ncl, ncalls)
+            if i % 5 == 3:
+                setup, clients = conc_hot_programs(rng, "rename-vs-stat")
+                ncl = len(clients)
+            elif i % 5 == 4:
+                setup, clients = conc_hot_programs(rng, "attrs")
+                ncl = len(clients)
+            else:
+                setup, clients = conc_programs(rng, ncl, ncalls)
             cfg = conc.config(rng, plain_bias=0.75, allow_pgp=False)
             comps = ["s", "x", "y", "z", "fix", "f", "g"] + ["d%d" % k for k in range(ncl)]
             names, pool = conc.names(rng, comps, rng.choice(["plain", "plain", "like", "spaces"]))
